@@ -193,7 +193,10 @@ func c26exec(t *testing.T, rng *rand.Rand) *c26result {
 		if will {
 			cfg.WillTopic, cfg.WillPayload, cfg.WillQOS, cfg.WillRetained = "will/cl", []byte("gone"), 1, true
 		}
-		f := newFullWorld(world.GWConfig{Predefined: c26Predefined(), RetryDelay: 10 * time.Second, RetryCount: 2}, world.BrokerCfg{FirstID: 1, Route: true, EarlyPublish: early}, cfg)
+		// in a third of the runs the broker answers pings 3 s late: with the 10 s keep-alive a keep-alive ping is
+		// in flight (unanswered) during a third of the time, also when Sleep/Disconnect/Publish are called
+		pingDelay := []time.Duration{0, 0, 3 * time.Second}[rng.Intn(3)]
+		f := newFullWorld(world.GWConfig{Predefined: c26Predefined(), RetryDelay: 10 * time.Second, RetryCount: 2}, world.BrokerCfg{FirstID: 1, Route: true, EarlyPublish: early, PingrespDelay: pingDelay}, cfg)
 		tr := f.W.Tr
 		call := func(name string, fn func() error) {
 			if hung != "" {
@@ -463,7 +466,7 @@ func TestC26(t *testing.T) {
 			r.Sample(map[string]interface{}{"program": ps, "keepalive": ka.String(), "broker_messages": len(order), "trace_head": world.Strings(evs, 30)})
 		}
 	})
-	r.Finish("random legal API programs (5-30 calls: Register, Subscribe string/wildcard/short/predefined QoS 0-2, Publish registered/short/predefined QoS 0-3 with/without retain, Unsubscribe, Ping, Sleep 0.5/1.5/2/20/100 s with broker traffic during the sleep and repeated sleep cycles, Connect back to active, Disconnect) run lock-step by the real client library against the real gateway session and a conforming simulated broker that routes the client's own publishes back to its subscriptions and sends third-party messages (single and bursts of 2-10 on not-yet-registered topics) whenever a current subscription matches; lossless link, virtual time, keep-alive 10 s / 60 s / 1 h, with and without a will. Oracle: every call returns nil; the broker saw one CONNECT with the configured fields, exactly the Publish calls (topic, payload, QoS with -1 -> 0, retain) in order, exactly the SUBSCRIBE/UNSUBSCRIBE filters in order, DISCONNECT iff Disconnect was called; every PUBLISH the broker sent ran a handler of a matching filter with the broker's topic and payload exactly once (QoS 1: at least once) by the end of a 45 s grace period in the active state; no handler ran for anything else. Non-trivial = at least one publish in either direction. Second front (client library against a scripted, conforming gateway): two calls on one filter in progress at once - Subscribe+Subscribe, Subscribe+Unsubscribe, Unsubscribe+Subscribe on a named / short / wildcard filter, every accept/refuse combination, acknowledgements in either order, 0 or 1 ms apart; both calls return what their acknowledgement says, and when a subscription exists afterwards a message on the topic runs a callback of an accepted Subscribe.", nil)
+	r.Finish("random legal API programs (5-30 calls: Register, Subscribe string/wildcard/short/predefined QoS 0-2, Publish registered/short/predefined QoS 0-3 with/without retain, Unsubscribe, Ping, Sleep 0.5/1.5/2/20/100 s with broker traffic during the sleep and repeated sleep cycles, Connect back to active, Disconnect) run lock-step by the real client library against the real gateway session and a conforming simulated broker that routes the client's own publishes back to its subscriptions and sends third-party messages (single and bursts of 2-10 on not-yet-registered topics) whenever a current subscription matches; lossless link, virtual time, keep-alive 10 s / 60 s / 1 h, with and without a will; in a third of the runs the broker answers PINGREQ 3 s late, so that calls start while a keep-alive ping is unanswered. Oracle: every call returns nil; the broker saw one CONNECT with the configured fields, exactly the Publish calls (topic, payload, QoS with -1 -> 0, retain) in order, exactly the SUBSCRIBE/UNSUBSCRIBE filters in order, DISCONNECT iff Disconnect was called; every PUBLISH the broker sent ran a handler of a matching filter with the broker's topic and payload exactly once (QoS 1: at least once) by the end of a 45 s grace period in the active state; no handler ran for anything else. Non-trivial = at least one publish in either direction. Second front (client library against a scripted, conforming gateway): two calls on one filter in progress at once - Subscribe+Subscribe, Subscribe+Unsubscribe, Unsubscribe+Subscribe on a named / short / wildcard filter, every accept/refuse combination, acknowledgements in either order, 0 or 1 ms apart; both calls return what their acknowledgement says, and when a subscription exists afterwards a message on the topic runs a callback of an accepted Subscribe.", nil)
 }
 
 func opKind(s string) string {
